@@ -69,6 +69,9 @@ def gen_workload(rng, malformed=False, batch=False, dag=False):
                     req[f"{nm}:any"] = rng.choice([1, 1, 1, 2])
                 if "GPU:any" not in req and rng.random() < 0.7:
                     req = {"GPU:any": rng.choice([1, 1, 2])}
+                if rng.random() < 0.12:
+                    # a specific instance, possibly next to an `any` request of the same type (overlapping entries)
+                    req[f"{rng.choice(RES)}:id{rng.randint(1, 3)}"] = 1
                 strategies.append({"batch_size": rng.choice([2, 3, 4]) if batch and rng.random() < 0.8 else 1, "runtime": rt, "resource_requirements": req})
             profiles.append({"name": pname, "execution_strategies": strategies})
             node = {"name": nd["name"], "work_profile": pname}
